@@ -74,83 +74,84 @@ type PathResult struct {
 
 // Path is the per-execution symbolic state.
 type Path struct {
-	eng     *Engine
-	wk      *worker
-	prefix  []Decision
-	pos     int
-	log     []Decision
-	model   map[string]uint64
-	evalc   *evalCtx
-	vars    []*Term
-	varSeq  map[string]int
-	fixed   map[string]uint64
-	pcount  int // number of asserted constraints
-	printer *smtPrinter
-	buf     strings.Builder
-	fuel    int
-	instrs  int
-	tags    []string
-	asserts int
-	out     strings.Builder // captured stdout of the target
-	obs     map[string]string
-	params  map[string]int
-	newDecs int
-	errOut  strings.Builder
-	intMode bool
-	crossNext bool
-	multi   map[int]bool
+	eng              *Engine
+	wk               *worker
+	prefix           []Decision
+	pos              int
+	log              []Decision
+	model            map[string]uint64
+	evalc            *evalCtx
+	vars             []*Term
+	varSeq           map[string]int
+	fixed            map[string]uint64
+	pcount           int // number of asserted constraints
+	printer          *smtPrinter
+	buf              strings.Builder
+	fuel             int
+	instrs           int
+	tags             []string
+	asserts          int
+	out              strings.Builder // captured stdout of the target
+	obs              map[string]string
+	params           map[string]int
+	newDecs          int
+	errOut           strings.Builder
+	intMode          bool
+	crossNext        bool
+	multi            map[int]bool
 	noDomainFastPath bool
-	domDecided int
-	iprinter *intPrinter
-	intDeclared map[*Term]bool
-	pc      []pcEntry
-	uf      []int
-	dom     []uint64
-	seenFns map[*ssaFunction]bool
-	crossPanic interface{}
-	hchoices []int
+	domDecided       int
+	iprinter         *intPrinter
+	intDeclared      map[*Term]bool
+	pc               []pcEntry
+	uf               []int
+	dom              []uint64
+	seenFns          map[*ssaFunction]bool
+	crossPanic       interface{}
+	hchoices         []int
 }
 
 type Config struct {
-	Harness     string // qualified function name, e.g. github.com/crillab/gophersat/solver.VP_x
-	Params      map[string]int
-	Workers     int
-	Fuel        int
-	TimeoutMs   int
-	MaxPaths    int
-	MaxViol     int
-	Solver      SolverKind
-	Deadline    time.Time
-	KeepSamples int
-	CrossCheck  []SolverKind // re-run assert queries on these solvers
-	Trace       bool
+	Harness      string // qualified function name, e.g. github.com/crillab/gophersat/solver.VP_x
+	Params       map[string]int
+	Workers      int
+	Fuel         int
+	TimeoutMs    int
+	MaxPaths     int
+	MaxViol      int
+	Solver       SolverKind
+	Deadline     time.Time
+	KeepSamples  int
+	CrossCheck   []SolverKind // re-run assert queries on these solvers
+	Trace        bool
 	NoQueryCache bool
-	IntMode     bool // use the integer printer where the no-wrap analysis allows it
-	Args        []string // os.Args for harnesses interpreting main
+	IntMode      bool     // use the integer printer where the no-wrap analysis allows it
+	Args         []string // os.Args for harnesses interpreting main
 }
 
 type Stats struct {
-	Paths       int
-	ByOutcome   map[string]int
-	Decisions   int
-	Forced      int
-	Queries     int
-	SolverTime  time.Duration
-	InterpTime  time.Duration
-	Asserts     int
-	AssertsSym  int
-	Tags        map[string]int
-	MaxInstrs   int
-	TotalInstrs int
-	Funcs       map[string]int
-	Unknowns    int
-	IntQueries  int
-	CacheHits   int
-	DomDecided  int // branch decisions settled by finite-domain propagation on one independent variable
-	CrossChecks int
-	CrossDiffs  int
-	Wall        time.Duration
-	Truncated   bool
+	SolverRestarts int
+	Paths          int
+	ByOutcome      map[string]int
+	Decisions      int
+	Forced         int
+	Queries        int
+	SolverTime     time.Duration
+	InterpTime     time.Duration
+	Asserts        int
+	AssertsSym     int
+	Tags           map[string]int
+	MaxInstrs      int
+	TotalInstrs    int
+	Funcs          map[string]int
+	Unknowns       int
+	IntQueries     int
+	CacheHits      int
+	DomDecided     int // branch decisions settled by finite-domain propagation on one independent variable
+	CrossChecks    int
+	CrossDiffs     int
+	Wall           time.Duration
+	Truncated      bool
 }
 
 type qkey struct{ a, b uint64 }
@@ -1012,7 +1013,7 @@ func Explore(prog *Program, cfg Config) (*RunReport, error) {
 				if !ok {
 					return
 				}
-				res := e.runPath(wk, fn, it)
+				res := e.runPathRetry(wk, fn, it)
 				e.record(res)
 				e.doneWork()
 			}
@@ -1024,6 +1025,54 @@ func Explore(prog *Program, cfg Config) (*RunReport, error) {
 	rep := &RunReport{Stats: e.stats, Results: e.results, Samples: e.samples, Harness: cfg.Harness, Params: cfg.Params}
 	rep.Completed = !e.stats.Truncated
 	return rep, nil
+}
+
+// runPathRetry runs one path; when a solver process of this worker dies
+// (broken pipe), the solvers are restarted and the path is executed again from
+// its decision prefix. A path on which the solver dies three times is an
+// engine error (exit 2), never a verdict.
+func (e *Engine) runPathRetry(wk *worker, fn *ssaFunction, it workItem) (res PathResult) {
+	for attempt := 0; attempt < 3; attempt++ {
+		died := false
+		func() {
+			defer func() {
+				if r := recover(); r != nil {
+					if ee, ok := r.(engineError); ok && strings.HasPrefix(ee.msg, "solver pipe") {
+						died = true
+						return
+					}
+					panic(r)
+				}
+			}()
+			res = e.runPath(wk, fn, it)
+		}()
+		if !died && !(res.Outcome == OutEngineError && strings.HasPrefix(res.Msg, "solver pipe")) {
+			return res
+		}
+		wk.solver.Close()
+		for _, cs := range wk.cross {
+			cs.Close()
+		}
+		ns, err := NewSolver(e.cfg.Solver, e.cfg.TimeoutMs)
+		if err != nil {
+			break
+		}
+		wk.solver = ns
+		wk.cross = nil
+		for _, ck := range e.cfg.CrossCheck {
+			cs, err := NewSolver(ck, e.cfg.TimeoutMs)
+			if err != nil {
+				break
+			}
+			wk.cross = append(wk.cross, cs)
+		}
+		e.mu.Lock()
+		e.stats.SolverRestarts++
+		e.mu.Unlock()
+	}
+	res.Outcome = OutEngineError
+	res.Msg = "a solver process died repeatedly on this path"
+	return
 }
 
 func (e *Engine) record(r PathResult) {
